@@ -169,6 +169,109 @@ fn examine_mat(pats: &[MatPat], heur: &Heur, hosts: &[Vec<Vec<char>>]) -> bool {
     r.unwrap_or(true)
 }
 
+/// Port-graph sets with heavy sharing: variants of one base graph (other roots, one more node).
+fn gen_big_pgset(rng: &mut Rng) -> Vec<crate::pg::PgPat> {
+    use crate::pg::random_connected;
+    let nb = rng.range(3, 5);
+    let base = random_connected(rng, nb, 3, false);
+    let np = rng.range(3, 7);
+    let mut pats: Vec<crate::pg::PgPat> = vec![];
+    for _ in 0..np {
+        match rng.below(4) {
+            0 | 1 => {
+                // the base graph under another root
+                let r = *rng.pick(&base.live());
+                pats.push((base.clone(), Some(r)));
+            }
+            2 => {
+                // the base graph plus one node linked from / to a random node (ports appended)
+                let mut g = base.clone();
+                let v = *rng.pick(&g.live());
+                let (i, o) = g.nodes[v].unwrap();
+                if rng.chance(1, 2) {
+                    g.nodes[v] = Some((i, o + 1));
+                    g.nodes.push(Some((1, rng.below(2))));
+                    g.links.push(((v, o), (g.nodes.len() - 1, 0)));
+                } else {
+                    g.nodes[v] = Some((i + 1, o));
+                    g.nodes.push(Some((rng.below(2), 1)));
+                    g.links.push(((g.nodes.len() - 1, 0), (v, i)));
+                }
+                let r = *rng.pick(&g.live());
+                pats.push((g, Some(r)));
+            }
+            _ => {
+                let n = rng.range(2, 4);
+                let g = random_connected(rng, n, 3, false);
+                let r = *rng.pick(&g.live());
+                pats.push((g, Some(r)));
+            }
+        }
+    }
+    pats
+}
+
+/// true = suspicious (two fallback transitions at a state, a panic, or — for sets of single-root
+/// patterns only, multi-root ones are known finding F3b — a difference from the naive matcher)
+fn examine_pg(pats: &[crate::pg::PgPat], heur: &Heur, hosts: &[crate::pg::GDesc]) -> bool {
+    use portmatching::portgraph::indexing::PGIndexKey;
+    use portmatching::Pattern;
+    let r = catch(|| {
+        let patterns = crate::pg::build_pgpatterns(pats);
+        let mut single_root = true;
+        for p in &patterns {
+            if let Ok(cs) = p.try_to_constraint_vec() {
+                for c in &cs {
+                    for k in c.required_bindings() {
+                        match k {
+                            PGIndexKey::PathRoot { index } if *index > 0 => single_root = false,
+                            PGIndexKey::AlongPath { path_root, .. } if *path_root > 0 => single_root = false,
+                            _ => {}
+                        }
+                    }
+                }
+            }
+        }
+        let (h, _) = heur.make();
+        let h: DetHeuristic<_, _> = h;
+        let m = match ManyMatcher::try_from_patterns_with_det_heuristic(patterns.clone(), PatternFallback::Fail, h) {
+            Ok(m) => m,
+            Err(_) => return true,
+        };
+        portmatching::verif::take_log();
+        let d = m.verif_automaton().verif_dump(|_| String::from("c"), |_: &PGIndexKey| String::new());
+        for s in &d.states {
+            let eps = s.out_edges.iter().filter(|e| e.2.is_none()).count();
+            if eps >= 2 || s.epsilon_order.len() >= 2 {
+                return true;
+            }
+        }
+        let naive = match NaiveManyMatcher::try_from_patterns(patterns.iter()) {
+            Ok(n) => n,
+            Err(_) => return true,
+        };
+        for host in hosts {
+            let g = host.build();
+            let canon = |pm: portmatching::PatternMatch<rustc_hash::FxHashMap<PGIndexKey, portgraph::NodeIndex>>| {
+                let mut kv: Vec<(PGIndexKey, usize)> = pm.match_data.iter().map(|(k, v)| (*k, v.index())).collect();
+                kv.sort();
+                (pm.pattern.0, format!("{:?}", kv))
+            };
+            let mut a: Vec<(usize, String)> = m.find_matches(&g).map(canon).collect();
+            let mut b: Vec<(usize, String)> = naive.find_matches(&g).map(canon).collect();
+            a.sort();
+            a.dedup();
+            b.sort();
+            b.dedup();
+            if single_root && a != b {
+                return true;
+            }
+        }
+        false
+    });
+    r.unwrap_or(true)
+}
+
 pub fn run(seed: u64, thorough: bool) {
     let threads = std::thread::available_parallelism().map(|n| n.get()).unwrap_or(4).min(16);
     let per_thread = if thorough { 60_000 } else { 3_000 };
@@ -193,6 +296,22 @@ pub fn run(seed: u64, thorough: bool) {
                     if hits.fetch_add(1, Ordering::Relaxed) < 20 {
                         // the full record, judged by the driver
                         string_case("E2E", &pats, &heur, &hosts);
+                    }
+                }
+                // every eighth case: a port-graph set with heavy sharing
+                if cases.load(Ordering::Relaxed) % 8 == 0 {
+                    let gpats = gen_big_pgset(&mut rng);
+                    let ghosts: Vec<crate::pg::GDesc> = (0..2)
+                        .map(|_| {
+                            let p = rng.pick(&gpats).0.clone();
+                            crate::pg::host_with_copy(&mut rng, &p)
+                        })
+                        .collect();
+                    cases.fetch_add(1, Ordering::Relaxed);
+                    if examine_pg(&gpats, &heur, &ghosts) {
+                        if hits.fetch_add(1, Ordering::Relaxed) < 20 {
+                            crate::pg::pg_case("E2E", &gpats, true, &heur, &ghosts);
+                        }
                     }
                 }
                 // every fourth case: a matrix set
